@@ -291,6 +291,15 @@ pub enum Op {
     /// Declare variable with var (hoisted): env.define_var(name, r[init])
     DeclareVarHoisted { name: ConstantIndex, init: Register },
 
+    /// Declare `name` in the current scope as an alias of the property r[obj][name]
+    /// (an exported member of a TypeScript namespace: reads and writes go to the
+    /// namespace object, as in `N.x`)
+    DeclareAliasVar {
+        name: ConstantIndex,
+        obj: Register,
+        mutable: bool,
+    },
+
     /// Get global variable (optimized path for globals)
     GetGlobal { dst: Register, name: ConstantIndex },
 
